@@ -3066,6 +3066,13 @@ impl<'a> QueryServerWriteTransaction<'a> {
         // Point of no return - everything has been validated and reloaded.
         //
         // = Lets commit =
+        //
+        // The database goes first. If any storage call of the backend commit fails, this
+        // transaction failed and nothing of it may become visible to readers: the schema,
+        // domain info, access controls ... below must only be published once their source
+        // entries are durable. None of the in-memory commits can fail.
+        be_txn.commit()?;
+
         #[cfg(feature = "verif-hooks")]
         crate::verif_hooks::c06::pause(crate::verif_hooks::c06::W_SCHEMA);
         schema
@@ -3077,7 +3084,6 @@ impl<'a> QueryServerWriteTransaction<'a> {
             .map(|_| dyngroup_cache.commit())
             .and_then(|_| key_providers.commit())
             .and_then(|_| accesscontrols.commit())
-            .and_then(|_| be_txn.commit())
     }
 
     pub(crate) fn get_txn_cid(&self) -> &Cid {
